@@ -22,6 +22,7 @@ def warm():
     xc.mc(wd, 3, "full", 1)
     xc.gen(wd, 3, "full", 1)
     xc.gen(wd, 3, "small", 2)
+    xc.gen_x(wd)
     perm_mc(wd)
     perm_gen(wd, 3)
 
@@ -65,7 +66,20 @@ def terms_for(wd, pid, tier):
         t4 += closing(pick(base, 3000 if q else 30000), "pp", "pp:")
         # every product-rooted term (factor order and ties in the sort keys matter for the round trip)
         t4 += closing([t for t in all2 if t["m"]["op"] in ("mul", "rmul")], "pp", "ppm:")
-    return t1 + t2 + t3 + t4, [d1, d2, sims]
+    # the four-name alphabet of interventional / counterfactual joints (ExprCalcX.tla): every depth-1 term and the closing
+    # actions of this property on all of them
+    gx = xc.gen_x(wd)[0]
+    x4 = [t for t in xc.with_ids(gx["terms"], "x4-") if t["d"] == 1]
+    t5 = [t for t in x4 if t["m"]["op"] in want]
+    if pid == "C13":
+        t5 += closing([t for t in x4 if t["m"]["op"] in ("div", "rdiv", "cond", "nmarg")], "fsimp", "fs:")
+        t5 += closing([t for t in x4 if t["m"]["op"] == "marg"], "ssimp", "ss:")
+    elif pid in ("C10", "C11"):
+        for k, o in enumerate([[4, 2, 1, 3], [1, 2, 3, 4]]):
+            t5 += closing(x4, "canon", f"cn{k}:", {"ord": o})
+    elif pid == "C12":
+        t5 += closing(x4, "pp", "pp:")
+    return t1 + t2 + t3 + t4 + t5, [d1, d2, sims, gx]
 
 
 def mstr(x):
